@@ -25,17 +25,27 @@
                                last one. What holds and is proved is hop-wise: the error value is
                                unchanged on every hop, and an awaiter still awaiting t is completed
                                with exactly t's error at the moment the notification is handled.
-     step_never_errs_partial : forall sigma from init, run (init nw) sigma is never
-                               Fault (EnvErr _): by step_errs_only this is the invariant
-                               `events_routed` ("every process id in a queued event is routed"); it
-                               needs (a) oracle honesty: Send / Await actions name allocated process
-                               ids (the VM obtains pids only from spawn / self / messages), and
-                               (b) a pass "awaiter ids recorded in awaiters_for_target are routed"
-                               over the worker operations, which is not written. WorkerErr: excluded
-                               class is exactly "the client calls resume_process / request_result
-                               for a process that is not there / not sleeping / failed".
+     step_never_errs_partial : (superseded by step_never_errs below; the old text is kept) forall sigma
+                               from init, run (init nw) sigma is never Fault (EnvErr _): by
+                               step_errs_only this is the invariant `events_routed` ("every process id
+                               in a queued event is routed"); it needs (a) oracle honesty: Send / Await
+                               actions name allocated process ids (the VM obtains pids only from spawn /
+                               self / messages), and (b) a pass "awaiter ids recorded in
+                               awaiters_for_target are routed" over the worker operations. WorkerErr:
+                               excluded class is exactly "the client calls resume_process /
+                               request_result for a process that is not there / not sleeping / failed".
+   NOW PROVED (phase 4, sys/ProtoRouted.v over the micro-step decomposition sys/ProtoMicro.v), for every
+   schedule and every oracle:
+     step_never_errs : under the single premise `pid_honest_run` (a boolean on the schedule: the
+                       Send / Await action of every Worker::step's oracle names process ids below
+                       next_process_id at that moment), run (init nw) sigma is never Fault (EnvErr _).
+                       No premise on client calls is needed (their misuse is a WorkerErr).
+                       The invariant: WF, every pid below next_process_id is routed, every queued
+                       event is routed including the awaiter of an AwaitAction, the awaiter of every
+                       queued QueryAndAwait is routed, every awaiter in awaiters_for_target is routed.
+     events_always_routed : the invariant `events_routed` itself in every reachable state.
    Outside this model: the debug panic of F9 (heap accounting, C06; repaired by b6882e1). *)
-From Quiver Require Import sys.Proto sys.ProtoFail sys.ProtoExamples sys.ProtoErrs.
+From Quiver Require Import sys.Proto sys.ProtoFail sys.ProtoExamples sys.ProtoErrs sys.ProtoRouted.
 
 Theorem C15_failure_local : forall p e h hint w w',
   NoDup (map fst (w_procs w)) ->
@@ -129,3 +139,24 @@ Theorem C15_error_classes_nonvacuous :
               s_env := {| e_router := []; e_next := 0; e_pending := [] |}; s_clock := 0 |} (E []) = Fault (EnvErr 1).
 Proof. exact (conj worker_err_on_client_misuse env_err_on_unrouted_id). Qed.
 Print Assumptions C15_error_classes_nonvacuous.
+
+(* ---- phase 4: step_never_errs for every schedule and oracle *)
+Theorem C15_step_never_errs : forall nw sigma,
+  pid_honest_run (init nw) sigma = true -> forall n, run (init nw) sigma <> Fault (EnvErr n).
+Proof. exact step_never_errs. Qed.
+Print Assumptions C15_step_never_errs.
+
+Theorem C15_events_always_routed : forall nw sigma s,
+  pid_honest_run (init nw) sigma = true -> run (init nw) sigma = Good s ->
+  forall i nd ev, nth_error (s_nodes s) i = Some nd -> In ev (n_evt nd) -> event_routed (s_env s) ev.
+Proof. exact events_always_routed. Qed.
+Print Assumptions C15_events_always_routed.
+
+(* non-vacuity: 11 actions on two workers (spawn, send and await across workers, completion report,
+   update) meet the premise and run *)
+Theorem C15_step_never_errs_nonvacuous :
+  pid_honest_run (init 2) routed_schedule = true /\
+  exists s nd pr, run (init 2) routed_schedule = Good s /\ nth_error (s_nodes s) 0 = Some nd /\
+    alookup 0 (w_procs (n_w nd)) = Some pr /\ p_res pr = Some (ROk 6) /\ e_next (s_env s) = 2.
+Proof. exact step_never_errs_applies. Qed.
+Print Assumptions C15_step_never_errs_nonvacuous.
